@@ -1080,6 +1080,9 @@ class NameMap(Model):
         return o
 
     def m_map_view(self, it, fv):
+        # [D[x] for x in L]: a label that is not a key would raise KeyError in the real code
+        i = it.ctx.fresh(I, 'imv')
+        it.ctx.check('name-map/every-listed-label-is-a-key', z3.Implies(z3.And(i >= 0, i < fv.n), self.dom(fv.elem(i))), {'witness': 'name-map'})
         return MappedView(self, fv)
 
 
